@@ -65,8 +65,9 @@ ENV = {
                 limits=True, ext=True, unique_signals=False, static_with_mux=True, min_len=1, mux_named=True),
     "dbf": dict(ecus=True, ecu_comments=True, frame_comments=True, signal_comments=True, multiline=False, senders="one", receivers=True,
                 motorola=True, signed=True, floats=True, mux=["none", "none", "simple"], values=True, neg_values=False,
-                attributes=["net", "ecu", "frame", "signal"], attr_types=["INT", "HEX", "STRING", "ENUM"], unit_max=16, nonascii=True,
-                limits=True, ext=True, unique_signals=False, static_with_mux=True, min_len=1, mux_named=True, no_comma=True),
+                attributes=["net", "ecu", "frame", "signal"], attr_types=["INT", "HEX"], unit_max=16, nonascii=True,
+                limits=True, ext=True, unique_signals=False, static_with_mux=True, min_len=1, mux_named=True, no_comma=True,
+                limits_times_factor=True),
     "sym": dict(ecus=False, ecu_comments=False, frame_comments=True, signal_comments=True, multiline=False, senders="none", receivers=False,
                 motorola=True, signed=True, floats=True, mux=["none", "none", "simple"], values=True, neg_values=False,
                 attributes=[], attr_types=[], unit_max=16, nonascii=True,
@@ -91,6 +92,7 @@ UNITS = ["", "", "rpm", "km/h", "V", "A", "degC", "%", "Nm", "bar", "ms", "m/s^2
 LABELS = ["Off", "On", "Init", "Error", "Not available", "Low", "High", "Reserved", "SNA", "Active", "Idle", "Fault 2", "Störung"]
 WORDS = ["engine", "speed", "value", "of", "the", "sensor", "raw", "filtered", "status;", "see", "spec", "(rev 2)", "100%", "kühl",
          "a=b", "x,y", "[unit]", "no."]
+WORDS_PLAIN = [w for w in WORDS if "," not in w and ";" not in w]
 
 
 def pick_name(rng, used, prefix):
@@ -118,7 +120,7 @@ def rand_decimal(rng, digits=4, neg=True, nonzero=False):
 
 def comment_text(rng, env, multiline):
     def line():
-        return " ".join(rng.choice(WORDS) for _ in range(rng.randrange(1, 7)))
+        return " ".join(rng.choice(WORDS_PLAIN if env.get("no_comma") else WORDS) for _ in range(rng.randrange(1, 7)))
     n = rng.choice([1, 1, 2, 3]) if multiline else 1
     words_ok = lambda t: t if env.get("nonascii", True) else t.encode("ascii", "ignore").decode()
     return words_ok("\n".join(line() for _ in range(n)))
@@ -257,6 +259,12 @@ def gen_desc(rng, fmt, size="small"):
                      unit="", receivers=[], mux=muxinfo, values={}, comment=None, attributes=attr_values("signal"))
             if isf:
                 s["min"], s["max"] = D(-1000), D(1000)
+                if env.get("limits_times_factor"):
+                    s["min"], s["max"] = -1000 * factor, 1000 * factor
+            elif env.get("limits_times_factor"):
+                # DBF carries the limits as (physical limit / factor): the envelope holds limits that are whole multiples of the factor
+                lo, hi = raw_range(s)
+                s["min"], s["max"] = lo * factor, hi * factor
             else:
                 lo, hi = raw_range(s)
                 if rng.random() < 0.3 and hi - lo > 4:       # limits narrower than the raw range
